@@ -155,11 +155,14 @@ impl Prop for C05 {
         let mut out = CaseOut::default();
         let mut rng = Rng::derive(ctx.seed, "C05", idx);
         for k in 0..10 {
-            let deco = match rng.below(3) {
+            let mut deco = match rng.below(3) {
                 0 => DecoOpts::none(),
                 1 => DecoOpts::heavy(),
                 _ => DecoOpts::light(),
             };
+            // own-line comments in the middle of statements are not part of C05's quantifier (layouts of
+            // the program, comments between statements); they are exercised by C02 and C14
+            deco.odd_comment = 0;
             let w = common::gram_case(&mut rng, 35, &deco);
             let prog = w.prog.as_ref().unwrap();
             let mut lay = w.layout.clone().unwrap();
